@@ -39,13 +39,19 @@ Recorded line (one JSON object per event, see PresenceTrace.tla):
           the real publish() under the turnstile -- pbegin {h, a, ty}, pcall {s 950+i, rh,
           ra, op, pk (trace | finished | placement | scheduled | other), path, res, found
           (what exists returned), w}, pend {res}
+  register_* (World(ext=True), presence.py): a container is registered through the real
+          EndpointPresence.register() / register_identity / _running / _endpoints from a
+          NEW session per run (801, 802, ...), its retry loop's time.sleep being a gate
+          of the turnstile -- rbegin {h, c, kind, s}, rcall {s, rh, rc, op create|get|sleep,
+          path, res, w}, rend {res ok|abort}; afterwards the run's session lingers until reap
   post    nodes {path: {d, o}}, pres {host: {path: container}} (the services' maps),
           queue {host: [[kind, c]]}, active {host: [c]}, sess {host: n}, linger [n],
           next {host: [op, path] the call the request in flight is stopped at, or []},
           anext [op, path] the call the helper run is stopped at, or [],
           sch {instance: /scheduled/<app> exists}, plc {instance: [hosts the scheduler placed
           it on]}, proot (/placement exists), fin {instance: /finished/<app> exists},
-          pnext [op, path kind] the call the publication is stopped at, or []
+          pnext [op, path kind] the call the publication is stopped at, or [],
+          rnext [op, path] the step the registration run is stopped at, or []
 """
 import glob as _glob
 import hashlib
@@ -63,6 +69,7 @@ core.ensure_repo_on_path()
 WATCHDOG_S = 60.0
 ADMIN_SESSION = 900     # session of the administrator in the log (AdmSess in Presence.tla)
 PUB_SESSION = 950       # + host index: the host's trace-event publisher (PubSess)
+REG_SESSION = 800       # + n: the n-th EndpointPresence registration run (RegSess)
 _REAL_GLOB = _glob.glob
 
 
@@ -154,12 +161,18 @@ SCENARIOS = {
 }
 
 
+def _retry_count():
+    from treadmill import presence
+    return int(getattr(presence, '_EPHEMERAL_RETRY_COUNT', 13))
+
+
 def header(scn, ext=False):
     """What the trace spec needs to know about the scenario (ext: the server
     presence nodes exist, i.e. the trace was recorded by World(ext=True))."""
     return dict(hosts=scn['hosts'], conts=scn['conts'], inst=scn['inst'], paths=scn['paths'],
                 data=scn['data'], kidx=list(range(1, 2 + len(scn['endpoints']))),
                 allpaths=[p for a in scn['paths'] for p in scn['paths'][a]], cpaths=scn['cpaths'],
+                retries=_retry_count(),
                 ext=dict(scn['ext'], sp=scn['ext']['sp'] if ext else {}))
 
 
@@ -370,6 +383,9 @@ class World:
         self.admin = None
         self.aslot = None           # helper run in flight
         self.pslot = None           # publication in flight
+        self.rslot = None           # EndpointPresence registration run in flight
+        self.rclient = None
+        self.nreg = 0
         self.pubs = {}              # host -> publisher client
         self.npub = 0
         self.nsch = 0
@@ -438,6 +454,16 @@ class World:
             world.sys_exit.append(code)
             raise Abandoned()
 
+        import time as _time
+        real_sleep = _time.sleep
+
+        def fake_sleep(secs):
+            # the retry loop of presence._create_ephemeral_with_retry waits on the turnstile
+            if threading.get_ident() in world.turn.slots:
+                world.turn.gate(None, 'sleep', '')
+            else:
+                real_sleep(secs)
+
         def fake_glob(pattern, *a, **k):
             order = world._glob_order[0]
             real = _REAL_GLOB(pattern, *a, **k)
@@ -455,6 +481,9 @@ class World:
             mock.patch.object(utils, 'sys_exit', sys_exit),
             mock.patch.object(_base_service.glob, 'glob', fake_glob),
         ]
+        if ext:
+            from treadmill import presence as _presence
+            self._patches.append(mock.patch.object(_presence.time, 'sleep', fake_sleep))
         for p in self._patches:
             p.start()
         _CURRENT[0] = self
@@ -537,6 +566,8 @@ class World:
                 self.turn.abandon(self.aslot)
             if self.pslot is not None and self.pslot.state != 'done':
                 self.turn.abandon(self.pslot)
+            if self.rslot is not None and self.rslot.state != 'done':
+                self.turn.abandon(self.rslot)
         finally:
             for p in reversed(self._patches):
                 try:
@@ -576,7 +607,7 @@ class World:
             sess[h] = self._sess(host.client.session) if host.up else 0
             slot = host.slot
             nxt[h] = list(slot.pending) if slot is not None and slot.state == 'gate' else []
-        aslot, pslot = self.aslot, self.pslot
+        aslot, pslot, rslot = self.aslot, self.pslot, self.rslot
         ext = self.scn['ext']
         have = self.store.nodes
         plc = {a: [h for h in self.scn['hosts']
@@ -590,7 +621,8 @@ class World:
                     anext=list(aslot.pending) if aslot is not None and aslot.state == 'gate' else [],
                     sch={a: ext['sch'][a] in have for a in self.scn['paths']}, plc=plc,
                     proot='/placement' in have,
-                    fin={a: ext['fin'][a] in have for a in self.scn['paths']}, pnext=pnext)
+                    fin={a: ext['fin'][a] in have for a in self.scn['paths']}, pnext=pnext,
+                    rnext=list(rslot.pending) if rslot is not None and rslot.state == 'gate' else [])
 
     def _pkind(self, path):
         for kind, pre in (('trace', '/trace/'), ('finished', '/finished/'),
@@ -1027,6 +1059,92 @@ class World:
         self._log(dict(ev='pend', res=res))
         return True
 
+    # -- presence.py: EndpointPresence.register_* ----------------------------------
+    def can_rbegin(self):
+        return self.ext and self.rslot is None
+
+    def rbegin(self, h, c, kind='all'):
+        """Container c is registered on host h through EndpointPresence (the docker
+        runtime's way), from a NEW ZooKeeper session."""
+        if not self.can_rbegin() or h not in self.hosts or c not in self.scn['rid'] or \
+                kind not in ('all', 'identity', 'running', 'endpoints'):
+            return False
+        from treadmill import presence
+        from treadmill import exc as tm_exc
+        scn = self.scn
+        a = scn['inst'][c]
+        client = GatedClient(self.store, self)
+        self.nreg += 1
+        self.sid[client.session] = REG_SESSION + self.nreg
+        manifest = dict(name=scn['app'][a],
+                        endpoints=[dict(name=e, port=8000 + i, real_port=scn['port'][c] + i, proto='tcp')
+                                   for i, e in enumerate(scn['endpoints'])])
+        if scn['identity']:
+            manifest['identity_group'] = 'grp'
+            manifest['identity'] = scn['ident_c'].get(c, scn['identity_of'][a])
+        slot = _Slot(h, kind, c)
+
+        def fn():
+            ep = presence.EndpointPresence(client, manifest, hostname=h, appname=manifest['name'])
+            try:
+                if kind == 'all':
+                    ep.register()
+                else:
+                    getattr(ep, 'register_' + kind)()
+                slot.res = 'ok'
+            except tm_exc.ContainerSetupError:
+                slot.res = 'abort'
+        self.rslot, self.rclient = slot, client
+        self.turn.start(slot, fn)
+        self.schedule.append(('RegBegin', [h, c, kind]))
+        self._log(dict(ev='rbegin', h=h, c=c, kind=kind, s=self._sess(client.session)))
+        return True
+
+    def can_rcall(self):
+        return self.rslot is not None and self.rslot.state == 'gate'
+
+    def rcall(self):
+        if not self.can_rcall():
+            return False
+        slot, client = self.rslot, self.rclient
+        op0 = slot.pending[0]
+        self.calls = []
+        self.turn.step(slot)
+        if op0 == 'sleep':
+            if self.calls:
+                raise tlc.MachineryError('turnstile: a ZooKeeper call inside time.sleep')
+            rec = dict(op='sleep', path='', res='ok', w=[])
+        else:
+            if len(self.calls) != 1 or self.calls[0][0] is not client:
+                raise tlc.MachineryError('turnstile: %d ZooKeeper calls in one registration step'
+                                         % len(self.calls))
+            rec = self.calls[0][1]
+        self.retries = []
+        self.schedule.append(('RCall', [1]))
+        self._log(dict(
+            ev='rcall', s=self._sess(client.session), rh=slot.host, rc=slot.cont,
+            op=rec['op'], path=rec['path'], res=rec['res'],
+            w=[dict(op=op, path=p, o=-1 if o is None else self._sess(o), a=bool(a))
+               for op, p, _s, o, a in rec['w']]))
+        return True
+
+    def can_rend(self):
+        return self.rslot is not None and self.rslot.state == 'done'
+
+    def rend(self):
+        if not self.can_rend():
+            return False
+        slot = self.rslot
+        slot.thread.join(WATCHDOG_S)
+        res = slot.res or 'ok'
+        if slot.exc is not None:
+            res = 'exc:' + (slot.exc if isinstance(slot.exc, str) else type(slot.exc).__name__)
+        self.linger.append(self.rclient.session)     # the session lives on until it is reaped
+        self.rslot = None
+        self.schedule.append(('REnd', [1]))
+        self._log(dict(ev='rend', res=res))
+        return True
+
     # -- schedules -----------------------------------------------------------------
     def apply(self, act, args):
         """One action of a schedule; False if it does not apply to the state the
@@ -1070,6 +1188,22 @@ class World:
             return self.pcall()
         if act == 'PEnd':
             return self.pend()
+        if act == 'RegBegin':
+            return self.rbegin(args[0], args[1], args[2] if len(args) > 2 else 'all')
+        if act == 'RCall':
+            return self.rcall()
+        if act == 'REnd':
+            return self.rend()
+        if act == 'RRun':                # hand-written: the run, at most args[3] steps (all if absent)
+            if len(args) >= 3 and args[2] != 'cont':
+                if not self.rbegin(args[0], args[1], args[2]):
+                    return False
+            n = 0
+            limit = args[3] if len(args) > 3 else 10 ** 6
+            while self.can_rcall() and n < limit:
+                self.rcall()
+                n += 1
+            return self.rend() if self.can_rend() else True
         if act == 'PRun':                # hand-written schedules: a whole publication
             if not self.pbegin(args[0], args[1], args[2]):
                 return False
@@ -1145,6 +1279,13 @@ class World:
             if n > 200:
                 raise tlc.MachineryError('helper run does not terminate')
         self.aend()
+        n = 0
+        while self.can_rcall():
+            self.rcall()
+            n += 1
+            if n > 400:
+                raise tlc.MachineryError('registration run does not terminate')
+        self.rend()
         n = 0
         while self.can_pcall():
             self.pcall()
